@@ -64,7 +64,7 @@ CHECKS = {
     },
     "C10": {
         "engine": "Flood.tla", "level": "model_checking", "design_ref": "7 (C10)",
-        "technique": "TLA+ penalty rule over integer ticks; TLC proves non-negativity, boundedness, held-iff-over and the window bound for all short histories; closure of penalty values with every edge replayed on the real rateLimit; timed end-to-end sessions validated by TLC",
+        "technique": "TLA+ penalty rule over integer ticks; TLC proves non-negativity, boundedness, held-iff-over and the window bound for all short histories (TLAPS proves the two bounds for histories of any length); closure of penalty values with every edge replayed on the real rateLimit; timed end-to-end sessions validated by TLC",
         "text": "Flood.tla states the rule (charge 2 s + n/120 s, real-time decay floored at zero, held for its own charge iff the penalty exceeds 10 s). TLC checks the window bound of "
                 "the property on every history of up to 5 sends, enumerates the closure of reachable penalty values (2.7 k) and each of the 65 k (penalty, gap, length) edges is replayed "
                 "on the real rateLimit through the verif hooks. Timed sessions over a real connection (protection on, off) are recorded with microsecond timestamps and validated.",
